@@ -258,6 +258,7 @@ func c30RunSystem(c verifc30.Case) (verifkit.Outcome, error) {
 			}
 			var err error
 			if spins {
+				stt.Label("unused-empty-map")
 				var verdict error
 				err, verdict = verifc30.Guarded(when, func() error { return registrystate.SetViaView(st, accID, regName, "v", fields) })
 				if verdict != nil {
